@@ -479,6 +479,10 @@ class Engine:
             self.pos += 1
             if d[0] == "assume":
                 raise RuntimeError("decision stack out of sync (branch)")
+            if len(d) > 4 and d[4] != cond.hash():
+                # the code under analysis took its decisions in another order than on the previous execution of this
+                # prefix (e.g. iteration over a set of objects hashed by address): replay by position is not valid
+                raise Unsupported("re-execution is not deterministic: decision order differs between runs of one path prefix")
             side = d[0]
             self._push(cond if side else z3.Not(cond))
             if self.pos == len(self.decisions):
@@ -508,7 +512,7 @@ class Engine:
                 other_feasible, alt_model = False, None
         if other_feasible:
             self.stats["forks"] += 1
-        self.decisions.append([side, other_feasible, alt_model, cur_model])
+        self.decisions.append([side, other_feasible, alt_model, cur_model, cond.hash()])
         self.pos += 1
         self._push(cond if side else ncond)
         self.model = cur_model
@@ -567,7 +571,7 @@ class Engine:
             if not self.decisions:
                 return
             d = self.decisions[-1]
-            self.decisions[-1] = [not d[0], False, None, d[2]]
+            self.decisions[-1] = [not d[0], False, None, d[2]] + d[4:]
             if self.stats["paths"] >= self.max_paths:
                 raise BudgetExceeded("paths")
             if self.wall_s is not None and time.time() - self.t0 > self.wall_s:
